@@ -413,8 +413,16 @@ func (a *analyzer) solve() *Result {
 		return
 	}
 	lockRefs := func(ac *access, L map[lockKey]bool) (locks []string, pre, post []int) {
+		readKind := ac.kind == "read" || ac.kind == "mapRead" || ac.kind == "mapIter"
 		for k := range L {
 			cls, base := keyBase(k)
+			if strings.HasPrefix(cls, sharedPrefix) {
+				// held through RLock: excludes writers only, so it protects a read, never a write
+				if !readKind {
+					continue
+				}
+				cls = strings.TrimPrefix(cls, sharedPrefix)
+			}
 			switch {
 			case cls == "live:" || cls == "valid:":
 			case strings.HasPrefix(cls, "pre:"), strings.HasPrefix(cls, "post:"):
